@@ -137,6 +137,9 @@ class Index:
             elif kind == "recv_err":
                 # the transport tells the protocol one turn later (connection_lost via call_soon)
                 self.causes.setdefault(d["fd"], []).append(((turn + 1, -1), "oserror", d.get("err")))
+            elif kind == "tr_write_raised":
+                # the library is told at once, inside the writing call (possibly while an earlier frame of a chunk is processed)
+                self.causes.setdefault(d["fd"], []).append(((turn, seq), "write_raise", d.get("fault")))
             elif kind == "send_err":
                 self.causes.setdefault(d["fd"], []).append(((turn + 1, -1), "send_oserror", d.get("err")))
             elif kind == "dev_tx":
